@@ -3,6 +3,7 @@ import ObiVerif.Model.TagSel
 import ObiVerif.Model.TagV
 import ObiVerif.Model.TagTV
 import ObiVerif.Model.TagSetup
+import ObiVerif.Model.TagStored
 import ObiVerif.Driver.Util
 /-!
 line protocol for C15 (see `harness/c15.go`)
@@ -54,6 +55,9 @@ s2  R1,… T1,… id:parent,… old:new,…|_                          -> ok | p
 fw  R1,… T1,… id:parent,… old:new,…|_ i:j,i:-,… | o(member 0) | …   -> index ; … | err | panic
                                                                (obirefidx.MakeIndexingSliceWorker, `sliceWorkerSetup`)
 ```
+glue pass (`Model/TagStored.lean`): `cl1 … ix=I1;I2;…` / `rx … ix=I1;I2;…` = the same commands on records that ALREADY
+carry an `obitag_ref_index` attribute (`Ii` as in `sl1`: `k=hex(text),…`, `_` = empty map, `-` = no attribute), one per
+record of the FILE: `refidxOutI` (never looks at it), `cliAssign1I` (a stored index is used as is).
 round 4, the set-up code (`Model/TagSetup.lean`): `Ti` = the `taxid` attribute of record i (`0` = no attribute), it may be
 absent from the taxonomy (record dropped by obitag / obirefidx) or an alias (`old:new`).  The model decides ITSELF which
 records are kept (verbatim compaction loops) and builds the parallel arrays; the searches read the 4-mer tables from the
@@ -484,10 +488,27 @@ def showIdOut : IdOut → String
   | .bad e => showBad e
   | .ok z m n => s!"{z} {m} {n}"
 
-def runCL1 (qs rs ts tx al : String) (secs : List String) : String :=
+/-- `ix=I1;I2;…` : the stored attribute of each record of the file -/
+def parseStored (w : String) (n : Nat) : Option (List (Option TIndex)) :=
+  if !w.startsWith "ix=" then none else
+  match (((w.drop 3).toString).splitOn ";").mapM parseGivenIndex with
+  | none => none
+  | some g =>
+    if g.length ≠ n then none else
+    some (g.map fun
+      | .ok ix => some ix
+      | .error _ => none)
+
+def mkRecsI (recs : List RefRec) (stored : List (Option TIndex)) : List RefRecI :=
+  (recs.zip stored).map fun (r, s) => ⟨r, s⟩
+
+def runCL1 (qs rs ts tx al : String) (ixw : Option String) (secs : List String) : String :=
   match listOf unhex qs, listOf unhex rs, listOf String.toNat? ts, listOf pairOf tx, listOf pairOf al with
   | some queries, some refs, some taxids, some nodes, some al =>
     if taxids.length ≠ refs.length then "bad-op" else
+    let given := ixw.map fun w => parseStored w refs.length
+    if given == some none then "bad-op" else
+    let given := given.join
     let t := mkTaxoA nodes al
     let fuel := nodes.length + 1
     let recs := mkRecs refs taxids
@@ -501,7 +522,10 @@ def runCL1 (qs rs ts tx al : String) (secs : List String) : String :=
     match qo, ro with
     | some qo, some ro =>
       let roA := ro.toArray
-      let outs := (queries.zip qo).map fun (q, o) => cliAssign1 t fuel nameOf rankOf recs q o (fun b => roA.getD b [])
+      let outs := (queries.zip qo).map fun (q, o) =>
+        match given with
+        | none => cliAssign1 t fuel nameOf rankOf recs q o (fun b => roA.getD b [])
+        | some g => cliAssign1I t fuel nameOf rankOf (mkRecsI recs g) q o (fun b => roA.getD b [])
       match outs.find? (fun x => match x with | .bad _ => true | _ => false) with
       | some b => showIdOut b
       | none =>
@@ -511,10 +535,13 @@ def runCL1 (qs rs ts tx al : String) (secs : List String) : String :=
     | _, _ => "bad-data"
   | _, _, _, _, _ => "bad-op"
 
-def runRX (rs ts tx al : String) (secs : List String) : String :=
+def runRX (rs ts tx al : String) (ixw : Option String) (secs : List String) : String :=
   match listOf unhex rs, listOf String.toNat? ts, listOf pairOf tx, listOf pairOf al with
   | some refs, some taxids, some nodes, some al =>
     if taxids.length ≠ refs.length then "bad-op" else
+    let given := ixw.map fun w => parseStored w refs.length
+    if given == some none then "bad-op" else
+    let given := given.join
     let t := mkTaxoA nodes al
     let fuel := nodes.length + 1
     let recs := mkRecs refs taxids
@@ -529,7 +556,9 @@ def runRX (rs ts tx al : String) (secs : List String) : String :=
       if m = 0 then "none" else
       " ; ".intercalate (((List.range m).zip ro).map fun (b, ow) =>
         s!"r{pos.getD b 0} " ++
-        match refidxIndex t fuel recs b ow with
+        match (match given with
+          | none => refidxIndex t fuel recs b ow
+          | some g => ((refidxOutI t fuel (mkRecsI recs g) b ow).map Prod.snd).getD (.error .panic)) with
         | .error _ => "panic"
         | .ok (.ok idx) => showIndex idx
         | .ok (.error e) => showBad e)
@@ -586,8 +615,10 @@ def run (line : String) : String :=
     match words head, secs with
     | ["conc", _g, _r, rs, ts, tx, qs, xs], secs => runConc rs ts tx qs xs secs
     | ["race", "conc", _g, _r, rs, ts, tx, qs, xs], secs => runConc rs ts tx qs xs secs
-    | ["cl1", qs, rs, ts, tx, al], secs => runCL1 qs rs ts tx al secs
-    | ["rx", rs, ts, tx, al], secs => runRX rs ts tx al secs
+    | ["cl1", qs, rs, ts, tx, al], secs => runCL1 qs rs ts tx al none secs
+    | ["cl1", qs, rs, ts, tx, al, ixw], secs => runCL1 qs rs ts tx al (some ixw) secs
+    | ["rx", rs, ts, tx, al], secs => runRX rs ts tx al none secs
+    | ["rx", rs, ts, tx, al, ixw], secs => runRX rs ts tx al (some ixw) secs
     | ["s2", rs, ts, tx, al], [] => runS2 rs ts tx al
     | ["fw", rs, ts, tx, al, ms], secs => runFW rs ts tx al ms secs
     | ["cw", a, b], [] =>
